@@ -2,7 +2,8 @@
   L3 — the discrete sub-algorithms of `grisubal` that an executable model can carry
   (`honeycomb-kernels/src/grisubal/routines/pre_processing.rs`).
 
-  Only `detect_orientation_issue` is modelled: the rest of the pipeline mixes f64 formulas with
+  Only `detect_orientation_issue` and the sizing formulas of `compute_overlapping_grid` are modelled:
+  the rest of the pipeline mixes f64 formulas with
   `T::epsilon()` bands and `HashMap`-ordered dart numbering and is validated end-to-end by the exact
   oracle of `tools/props/c16.py` on the real implementation (DESIGN.md §7 C16).
 
@@ -27,5 +28,15 @@ def detectOrientationIssueFrom : List (Nat × Nat) → List Nat → List Nat →
 
 def detectOrientationIssue (segments : List (Nat × Nat)) : Bool :=
   detectOrientationIssueFrom segments [] []
+
+/-! `compute_overlapping_grid`, one axis, over `Rat` (exact `/` and `ceil`).  `shift` is the cumulated
+    shift of the origin in cells (`0` when no geometry vertex lies on a grid line — general position —,
+    otherwise the partial sum `1/4 + 1/8 + …` of the shift loop, always `< 1/2`). -/
+
+/-- `og = min - len_cell * 1.5 (+ len_cell * shift)` -/
+def gridOrigin (mn c shift : Rat) : Rat := mn - c * (3 / 2) + c * shift
+
+/-- `n_cells = ((max - og) / len_cell).ceil().to_usize().unwrap() + 1` -/
+def gridCells (mn mx c shift : Rat) : Nat := ((mx - gridOrigin mn c shift) / c).ceil.toNat + 1
 
 end HC
